@@ -33,6 +33,18 @@ class FeatureProduction(Production):
         """The merged features of the production rules"""
         return self._features
 
+    def __eq__(self, other):
+        # Two productions with the same head and body but other features
+        # (D[N=sg] -> the and D[N=pl] -> the) are different productions
+        if not super().__eq__(other):
+            return False
+        if isinstance(other, FeatureProduction):
+            return repr(self._features) == repr(other.features)
+        return True
+
+    def __hash__(self):
+        return super().__hash__()
+
     def __repr__(self):
         res = [self.head.to_text()]
         cond_head = str(self._features.get_feature_by_path(["head"]))
